@@ -27,6 +27,11 @@ def run(ctx) -> None:
              "both the lazy and the eager arm")
     ctx.rule("R-MEANAXES", "reduce_ensemble selects exactly the axes whose metadata carries _ensemble_mean and "
              "returns self.mean over those axes")
+    ctx.rule("R-ORDERFREE", "the random numbers of a configuration are paired with coordinates by *value*, never by "
+             "position in an order that the seeds do not fix: a sequence that is built by iterating a set (its order "
+             "depends on the interpreter's string-hash seed) may be looped over, but its enumerate() counter must "
+             "not index the drawn numbers or the positions — otherwise the same seeds give different configurations "
+             "in another interpreter process (a process-based dask scheduler, a script run twice)")
     ctx.rule("R-PERCONFIG", "in multislice_and_detect every measurement update happens once per configuration: each "
              "call of _update_measurements / _validate_potential_ensemble_indices lies inside the loop over "
              "_generate_potential_configurations, and the configuration index handed to "
@@ -151,6 +156,51 @@ def run(ctx) -> None:
     ctx.check(okm, "R-MEANAXES", f"{re_.qualname}", re_.loc(mr), "mean over exactly the _ensemble_mean axes",
               f"reduce_ensemble averages over {detail or norm_text(axarg) if axarg is not None else '?'} — not the "
               "axes flagged _ensemble_mean", key_detail="axes")
+
+    # ---------------- R-ORDERFREE
+    fpc = repo.cls(PH, "FrozenPhonons")
+    unstable: dict[str, str] = {}
+    for klass in fpc.mro():
+        for defs in klass.methods.values():
+            for m in defs:
+                loops_ = [l for l in walk_no_nested(m.node) if isinstance(l, ast.For) and any(
+                    isinstance(c, ast.Call) and call_name(c) in ("set", "frozenset") for c in ast.walk(l.iter))]
+                rets_ = [r for r in walk_no_nested(m.node) if isinstance(r, ast.Return) and r.value is not None]
+                if loops_ and rets_ and (m.is_property or not m.positional_params[1:]):
+                    unstable[m.name] = norm_text(loops_[0].iter)[:50]
+    n_of = 0
+    for l in walk_no_nested(rz.node):
+        if not isinstance(l, ast.For):
+            continue
+        it, tgt = l.iter, l.target
+        counter = None
+        if isinstance(it, ast.Call) and call_name(it) == "enumerate" and it.args and isinstance(tgt, ast.Tuple) \
+                and isinstance(tgt.elts[0], ast.Name):
+            it, counter = it.args[0], tgt.elts[0].id
+        src = dotted(it) or ""
+        # a local alias of the sequence
+        if isinstance(it, ast.Name):
+            d_ = df.single_def(df.cfg.node_of(l).idx, it.id)
+            if d_ is not None and d_.value is not None:
+                src = dotted(d_.value) or src
+        attr = src[5:] if src.startswith("self.") else None
+        direct_set = any(isinstance(c, ast.Call) and call_name(c) in ("set", "frozenset") for c in ast.walk(l.iter))
+        if not (attr in unstable or direct_set):
+            continue
+        n_of += 1
+        used = []
+        if counter is not None:
+            for sub in (x for st_ in l.body for x in ast.walk(st_) if isinstance(x, ast.Subscript)):
+                if any(isinstance(n_, ast.Name) and n_.id == counter for n_ in ast.walk(sub.slice)):
+                    used.append(sub)
+        ctx.check(not used, "R-ORDERFREE", f"{rz.qualname}:loop over {src or 'a set'}", rz.loc(l),
+                  f"loop over {src} (built from {unstable.get(attr, 'a set')}): values are paired by axis value, the "
+                  "iteration position is not used as an index",
+                  f"`{norm_text(used[0])[:50]}` is indexed with `{counter}`, the position in a loop over {src}, which is "
+                  f"built by iterating {unstable.get(attr, 'a set')}: the order of a set of strings depends on the "
+                  "interpreter's hash seed, so which random column displaces which coordinate is not determined by "
+                  "the configuration seeds" if used else "", key_detail="orderfree")
+    ctx.require(n_of >= 1, f"{rz.qualname}: no loop over the displaced axes found")
 
     # ---------------- R-PERCONFIG
     mad = repo.function("abtem.multislice", "multislice_and_detect")
